@@ -186,7 +186,7 @@ class Check:
             raise Infra('axiom audit failed to run:\n' + p.stdout[-2000:])
         text = p.stdout.replace('\n  ', ' ')
         found = {}
-        for m in re.finditer(r"'([^']+)' (does not depend on any axioms|depends on axioms: \[([^\]]*)\])", text):
+        for m in re.finditer(r"'(\S+)' (does not depend on any axioms|depends on axioms: \[([^\]]*)\])", text):
             found[m.group(1)] = set(a.strip() for a in (m.group(3) or '').split(',') if a.strip())
         self.extra['axioms'] = {k: sorted(v) for k, v in found.items()}
         for n in names:
